@@ -96,7 +96,7 @@ pub fn worker_main() -> ! {
                         r.status = 2;
                         r.peak = st.peak as u64;
                         r.max_single = st.max_single as u64;
-                        r.msg = crate::engine::GLOBAL_PANICS.lock().unwrap().pop().unwrap_or_default();
+                        r.msg = crate::engine::GLOBAL_PANICS.lock().unwrap().pop().map(|p| p.1).unwrap_or_default();
                     }
                     Err(_) => {
                         r.status = 2;
